@@ -92,6 +92,8 @@ pub struct Account {
 	pub eab_kid: Option<String>,
 	pub status: String,
 	pub forgotten: bool,
+	pub forgotten_at: Option<u128>,
+	pub created_contacts: Vec<String>,
 	pub created_tx: u64,
 	/// history for the C11 monitor
 	pub key_history: Vec<(u64, String)>, // (tx, thumbprint)
@@ -943,10 +945,12 @@ impl Ca {
 				self.accounts.push(Account {
 					id,
 					key: key.clone(),
-					contacts,
+					contacts: contacts.clone(),
+					created_contacts: contacts,
 					eab_kid: eab_kid.clone(),
 					status: "valid".into(),
 					forgotten: false,
+					forgotten_at: None,
 					created_tx: req.tx,
 					key_history: vec![(req.tx, key.thumb.clone())],
 					contact_updates: vec![],
@@ -1341,11 +1345,12 @@ impl Ca {
 		v
 	}
 
-	pub fn forget_account(&mut self, thumb_or_any: Option<&str>) -> usize {
+	pub fn forget_account(&mut self, thumb_or_any: Option<&str>, now: u128) -> usize {
 		let mut n = 0;
 		for a in self.accounts.iter_mut() {
 			if !a.forgotten && thumb_or_any.map(|t| t == a.key.thumb).unwrap_or(true) {
 				a.forgotten = true;
+				a.forgotten_at = Some(now);
 				n += 1;
 			}
 		}
